@@ -150,6 +150,17 @@ func solveFunction(fr *FuncResult, opts CheckOpts) {
 				asserts = append(append([]*Term{}, ex.nlAxioms...), asserts...)
 				o.Res = Solve(ex.env.d, asserts, ex.inputs, timeout, opts.All, o.Site+" @"+o.Path)
 			}
+			if o.Res.Status == "sat" && os.Getenv("GOCV_DEBUG") != "" {
+				for _, cj := range flattenAnd(o.Goal) {
+					as := append(append([]*Term{}, ex.nlAxioms...), ex.axioms...)
+					as = append(as, o.Hyps...)
+					as = append(as, Not(cj))
+					r := Solve(ex.env.d, as, nil, 5, false, o.Site+" [dbg]")
+					if r.Status != "unsat" {
+						fmt.Fprintf(os.Stderr, "SAT-CONJUNCT %s @%s: %s : %s\n", o.Site, o.Path, r.Status, truncate(cj.String(), 500))
+					}
+				}
+			}
 			if o.Res.Status != "unsat" && o.Res.Status != "sat" && len(flattenAnd(o.Goal)) > 1 {
 				// conjunct-wise: every conjunct of the goal on its own
 				allOK := true
